@@ -311,6 +311,8 @@ def judge(out):
                 text = line
                 kind = line.split("kind=")[1].split()[0]
         return [("ENGINE" if kind == "engine" else kind, text)]
+    if out["sig"] in (24, 9):
+        return [("hang", "the run used 60 s of CPU time without terminating (a run takes well under a second)")]
     if out["sig"]:
         return [("crash", "signal %d" % out["sig"])]
     if out["status"] != 0:
